@@ -432,6 +432,10 @@ impl SvgElement {
         }
 
         let mut p = Position::from(self as &SvgElement);
+        // The x / y of a `use` move its target, wherever that is drawn: the box of the
+        // instance is the target's box moved by them. Positions are worked out for that
+        // box, and x / y written back as the move which takes the target's box there.
+        let mut use_origin = None;
         if self.name == "use" {
             if let Some(href) = self
                 .get_attr("href")
@@ -444,16 +448,25 @@ impl SvgElement {
                         .ok_or_else(|| SvgdxError::ReferenceError(elref))?;
                     if let Some(sz) = ctx.get_element_size(el)? {
                         p.update_size(&sz);
-                        if el.name == "circle" || el.name == "ellipse" {
-                            // The referenced element is defined by its center,
-                            // but use elements are defined by top-left pos.
-                            p.translate(sz.0 / 4., sz.1 / 4.);
+                    }
+                    if let Some((ox, oy)) = self.use_target_origin(ctx)? {
+                        if ox != 0. || oy != 0. {
+                            p.xmin = p.xmin.map(|x| x + ox);
+                            p.ymin = p.ymin.map(|y| y + oy);
+                            use_origin = Some((ox, oy));
                         }
                     }
                 }
             }
         }
         p.set_position_attrs(self);
+        if let Some((ox, oy)) = use_origin {
+            for (attr, origin) in [("x", ox), ("y", oy)] {
+                if let Some(Ok(value)) = self.get_attr(attr).map(|v| strp(&v)) {
+                    self.set_attr(attr, &fstr(value - origin));
+                }
+            }
+        }
 
         Ok(())
     }
@@ -1294,13 +1307,42 @@ impl SvgElement {
                     self.attrs.insert(key.clone(), computed);
                 }
             } else if self.is_pos_attr(&key) {
-                let computed = self.eval_pos_attr(&key, &value, ctx)?;
+                let mut computed = self.eval_pos_attr(&key, &value, ctx)?;
+                // (a place given for the left / top of a `use` is that of its box; its x / y
+                // move the target, which need not be drawn at the origin)
+                if let ("use", "x" | "y", true, Ok(place)) = (
+                    self.name.as_str(),
+                    key.as_str(),
+                    computed != value,
+                    strp(&computed),
+                ) {
+                    if let Some((ox, oy)) = self.use_target_origin(ctx)? {
+                        computed = fstr(place - if key == "x" { ox } else { oy });
+                    }
+                }
                 if strp(&computed).is_ok() {
                     self.attrs.insert(key.clone(), computed);
                 }
             }
         }
         Ok(())
+    }
+
+    /// For a `use` of an element of this document: where the top-left corner of that
+    /// element's box is.
+    fn use_target_origin(&self, ctx: &impl ElementMap) -> Result<Option<(f32, f32)>> {
+        let href = self
+            .get_attr("href")
+            .or_else(|| self.get_attr("xlink:href"));
+        let Some(elref) = href.as_deref().and_then(href_elref) else {
+            return Ok(None);
+        };
+        let el = ctx
+            .get_element(&elref)
+            .ok_or_else(|| SvgdxError::ReferenceError(elref))?;
+        Ok(ctx
+            .get_element_bbox(el)?
+            .map(|bbox| bbox.locspec(LocSpec::TopLeft)))
     }
 
     fn eval_text_anchor(&mut self, ctx: &impl ContextView) -> Result<()> {
